@@ -1,1 +1,26 @@
+//! Helpers shared by the HTTP engines
+use std::net::IpAddr;
 
+pub fn canonical_ip(ip: IpAddr) -> IpAddr {
+    match ip {
+        IpAddr::V4(a) => IpAddr::V4(a),
+        IpAddr::V6(a) => match a.to_ipv4_mapped() {
+            Some(v4) => IpAddr::V4(v4),
+            None => IpAddr::V6(a),
+        },
+    }
+}
+
+pub fn panic_text(p: &(dyn std::any::Any + Send)) -> String {
+    if let Some(s) = p.downcast_ref::<&str>() {
+        s.to_string()
+    } else if let Some(s) = p.downcast_ref::<String>() {
+        s.clone()
+    } else {
+        "non-string panic".to_string()
+    }
+}
+
+pub fn silence_panics() {
+    std::panic::set_hook(Box::new(|_| {}));
+}
